@@ -379,7 +379,62 @@ def check(run):
     res = common.standard_flow(run, spec, cases)
     for c, o, ch in res:
         run.count('err_' + str(o['err']))
+    check_connect_shapes(run)
+
+
+# wrongly shaped inputs: what connect() itself must refuse, and what it must accept and store
+SHAPES = [
+    ('kw_underscore_with_group', lambda f, a, b: f.connect(a, b, _=a), ValueError),
+    ('kw_underscore_only', lambda f, a, b: f.connect(_=a), ValueError),
+    ('kw_underscore_group', lambda f, a, b: f.connect(_=[a, b]), ValueError),
+    ('nothing', lambda f, a, b: f.connect(), ValueError),
+    ('positional_list', lambda f, a, b: f.connect([a, b]), ValueError),
+    ('positional_tuple', lambda f, a, b: f.connect(a, (a, b)), ValueError),
+    ('twice', lambda f, a, b: f.connect(a).connect(b), 'EdzedInvalidState'),
+    ('twice_kw', lambda f, a, b: f.connect(x=a).connect(y=b), 'EdzedInvalidState'),
+    ('ok_group_and_names', lambda f, a, b: f.connect(a, b, x=a, g=[a, b], e=[]), None),
+    ('ok_string_is_a_name', lambda f, a, b: f.connect('a', x='b'), None),
+]
+
+
+def check_connect_shapes(run, only=None):
+    """'wrongly shaped inputs make construction or the start fail': the shapes connect() refuses at
+    once, and - as the positive control - what it stores for well-formed calls."""
+    for name, call, expect in SHAPES:
+        if only is not None and name != only:
+            continue
+        edzed.reset_circuit()
+        obs = dict(raised=None, inputs=None)
+        try:
+            a, b = edzed.Input('a', initdef=0), edzed.Input('b', initdef=1)
+            f = edzed.FuncBlock('f', func=lambda *args, **kw: 0)
+            try:
+                call(f, a, b)
+            except Exception as err:       # noqa
+                obs['raised'] = type(err).__name__
+            obs['inputs'] = {k: ([getattr(x, 'name', x) for x in v] if isinstance(v, tuple)
+                                 else getattr(v, 'name', v)) for k, v in f.inputs.items()}
+        finally:
+            edzed.reset_circuit()
+        run.add_case(dict(connect_shape=name), True)
+        run.count('connect_shape')
+        if expect is None:
+            want = ({'_': ['a', 'b'], 'x': 'a', 'g': ['a', 'b'], 'e': []} if name == 'ok_group_and_names'
+                    else {'_': ['a'], 'x': 'b'})
+            ok = obs['raised'] is None and obs['inputs'] == want
+        else:
+            ok = obs['raised'] == (expect if isinstance(expect, str) else expect.__name__)
+        run.add_obligation(ok)
+        if not ok:
+            run.violation('monitor', dict(case=dict(connect_shape=name), observed=obs),
+                          f"connect() call '{name}': expected "
+                          f"{'acceptance' if expect is None else getattr(expect, '__name__', expect)}, observed "
+                          f"exception {obs['raised']} and stored inputs {obs['inputs']}",
+                          clause='connect_shape:' + name, concrete=True)
 
 
 def replay(run, path):
+    _, case = common.load_replay_case(path)
+    if isinstance(case, dict) and 'connect_shape' in case:
+        return common.directed_replay(run, path, lambda: check_connect_shapes(run, case['connect_shape']))
     return common.std_replay(run, C15(), path)
